@@ -15,6 +15,7 @@ func init() { register("C45", "other", c45) }
 
 // C45 An honest generator's block passes honest verification (agreement clauses).
 func c45(r *core.Report, p *core.Prog, thorough bool) {
+	c45Cost(r, p)
 	r.Explain = "Decided (agreement between the generator's admission and the verifier's checks, structure only): the verifier rejects a transaction whose creation time is outside WithinTime(block creation date, txn creation date, TXN_TIME_TOLERANCE) (ValidateWrtTimeForBlock, called from ValidateTransactions with b.CreationDate); the generator's validateTransaction leaves every exit that is not the ErrNotTimeTolerant sentinel only behind the very same predicate with the same tolerance constant and the generated block's creation date, and the packing closure appends to b.Txns only where that result is known not to be ErrNotTimeTolerant / PastTransaction / FutureTransaction; the nonce window the generator admits (txn.Nonce - state.Nonce neither > 1 nor < 1, or Nonce == 1 for an unknown client) is the one execution requires; a transaction is appended only after mc.UpdateState — the function the verifier's ComputeState also applies — returned no error, once per key (txnMap test before, txnMap set with the append). Not decided: equality of the resulting state roots (C06 and run time), the block-cost bound, built-in transactions."
 	r.Rule("C45.time-verifier", "ValidateWrtTimeForBlock: success exits dominated by WithinTime(ts, t.CreationDate, TXN_TIME_TOLERANCE); ValidateTransactions passes b.CreationDate as ts")
 	r.Rule("C45.time-generator", "validateTransaction: every exit is dominated by WithinTime(b.CreationDate, txn.CreationDate, TXN_TIME_TOLERANCE) == true or returns the ErrNotTimeTolerant sentinel")
@@ -233,4 +234,122 @@ func unconv(v ssa.Value) ssa.Value {
 			return v
 		}
 	}
+}
+
+// c45Cost: the generator admits a transaction only while the accumulated cost plus that
+// transaction's own estimated cost stays below the limit the verifier enforces.
+// objKey canonicalises a pointer value: loads of closure variables and of single-store
+// locals denote the variable.
+func objKey(v ssa.Value) ssa.Value {
+	if ld, ok := v.(*ssa.UnOp); ok && ld.Op == token.MUL {
+		if fv, ok := ld.X.(*ssa.FreeVar); ok {
+			return fv
+		}
+	}
+	return canonObj(v)
+}
+
+func c45Cost(r *core.Report, p *core.Prog) {
+	r.Rule("C45.cost", "every generator call of the transaction processor is dominated by iter.cost + c < MaxBlockCost() with c the estimated cost of that very transaction, and iter.cost grows by the same c; the verifier rejects only cost > MaxBlockCost()")
+	n := 0
+	for _, fn := range p.FuncsIn(pkgMiner) {
+		if isTooling(p, fn) || fn.Blocks == nil {
+			continue
+		}
+		for _, b := range fn.Blocks {
+			for _, in := range b.Instrs {
+				c, ok := in.(*ssa.Call)
+				if !ok || c.Call.IsInvoke() || c.Call.StaticCallee() != nil {
+					continue
+				}
+				a := c.Call.Args
+				if len(a) < 4 || core.NamedName(derefType(a[2].Type())) != pkgTxn+".Transaction" || core.NamedName(derefType(a[3].Type())) != pkgMiner+".TxnIterInfo" {
+					continue
+				}
+				n++
+				txn, iter := a[2], a[3]
+				// the dominating bound
+				var cost ssa.Value
+				for _, f := range CmpFacts(c.Block()) {
+					if f.Op != token.LSS {
+						continue
+					}
+					sum, ok := f.X.(*ssa.BinOp)
+					if !ok || sum.Op != token.ADD {
+						continue
+					}
+					mc, ok := f.Y.(*ssa.Call)
+					if !ok || core.MethodName(mc.Common()) != "MaxBlockCost" {
+						continue
+					}
+					x, y := sum.X, sum.Y
+					if rt, pth := core.BaseObject(y); pth == ".cost" && objKey(rt) == objKey(iter) {
+						x, y = y, x
+					}
+					if rt, pth := core.BaseObject(x); pth == ".cost" && (objKey(rt) == objKey(iter) || rt == iter) {
+						cost = y
+					}
+				}
+				okBound := cost != nil
+				why := "no dominating `iter.cost + c < MaxBlockCost()` on the iterator passed to the processor"
+				if okBound {
+					ec, idx := core.CallOf(canonObj(cost))
+					okBound = ec != nil && idx == 0 && strings.Contains(core.MethodName(ec.Common()), "EstimateTransactionCost")
+					why = "the cost in the bound is " + describe(cost)
+					if okBound {
+						ea := core.CallArgs(ec.Common())
+						same := false
+						for _, x := range ea {
+							if canonObj(x) == canonObj(txn) {
+								same = true
+							}
+						}
+						okBound = same
+						why = "the bound uses the estimate of another transaction"
+					}
+				}
+				r.Check(okBound, "C45.cost", fmt.Sprintf("%s:processor-call#%d:own-cost-bound", fn.String(), n), p.Pos(c.Pos()), "the transaction is admitted under accumulated cost + its own estimated cost < limit; "+why)
+				// accumulation by the same cost
+				if okBound {
+					okAcc := false
+					for _, b2 := range fn.Blocks {
+						for _, in2 := range b2.Instrs {
+							st, ok := in2.(*ssa.Store)
+							if !ok || !core.Reaches(c, st) {
+								continue
+							}
+							if rt, pth := core.BaseObject(st.Addr); pth == ".cost" && (objKey(rt) == objKey(iter) || rt == iter) {
+								if bo, ok := st.Val.(*ssa.BinOp); ok && bo.Op == token.ADD && (canonObj(bo.Y) == canonObj(cost) || canonObj(bo.X) == canonObj(cost)) {
+									okAcc = true
+								}
+							}
+						}
+					}
+					r.Check(okAcc, "C45.cost", fmt.Sprintf("%s:processor-call#%d:accumulates-own-cost", fn.String(), n), p.Pos(c.Pos()), "after a successful admission the accumulated cost grows by the same estimate")
+				}
+			}
+		}
+	}
+	r.Floor("C45.cost", "generator calls of the transaction processor", n, 2)
+	// verifier side: ValidateBlockCost rejects only on cost > Max
+	vb := p.Func("(*" + pkgMiner + ".Chain).VerifyBlock")
+	if vb == nil {
+		r.Unresolved("C45.cost", "miner.(*Chain).VerifyBlock")
+		return
+	}
+	okV := false
+	for _, b := range vb.Blocks {
+		ifi, ok := b.Instrs[len(b.Instrs)-1].(*ssa.If)
+		if !ok {
+			continue
+		}
+		bo, ok := ifi.Cond.(*ssa.BinOp)
+		if !ok || bo.Op != token.GTR {
+			continue
+		}
+		if mc, ok := bo.Y.(*ssa.Call); ok && core.MethodName(mc.Common()) == "MaxBlockCost" && failsOnlyBlock(b.Succs[0]) {
+			okV = true
+		}
+	}
+	r.Check(okV, "C45.cost", "VerifyBlock:rejects-only-above-limit", p.Pos(vb.Pos()), "the verifier's bound (cost > limit rejects) is implied by the generator's (sum < limit admits)")
 }
